@@ -373,6 +373,16 @@ func runMw(fields []string) string {
 	if again := mwServe(r, "GET", "/b", false); again != items[len(items)-1] {
 		oracle = append(oracle, "same request, different trace: "+again+" vs "+items[len(items)-1])
 	}
+	// a route reached by ignoring a trailing slash (in both directions) runs the same chain as a directly matched one
+	if _, err := r.Handle("GET", "/ig", mwRouteHandler, append(routeOpts(ownA), fox.WithIgnoreTrailingSlash(true))...); err != nil {
+		return "I=handle-error\tO=Handle failed: " + err.Error()
+	}
+	if _, err := r.Handle("GET", "/igs/{x}/", mwRouteHandler, append(routeOpts(ownB), fox.WithIgnoreTrailingSlash(true))...); err != nil {
+		return "I=handle-error\tO=Handle failed: " + err.Error()
+	}
+	items = append(items, mwServe(r, "GET", "/ig/", false))
+	items = append(items, mwServe(r, "GET", "/ig/", true))
+	items = append(items, mwServe(r, "GET", "/igs/v", false))
 	res := "I=" + strings.Join(items, "|")
 	if len(oracle) > 0 {
 		res += "\tO=" + strings.Join(oracle, "; ")
